@@ -259,6 +259,48 @@ var Format = &codec.Format{
 	ModelRetained:  true,
 }
 
+// capBoundary: a frame of exactly the documented maximum size must round-trip (C03); with one
+// byte more no frame above the maximum may be returned (C08).  Oracle on the implementation only
+// (3 MiB case lines would dominate the run); the bound itself is a theorem (Props_C08).
+func capBoundary(ctx *hx.Ctx, extra int) {
+	const max = 60000
+	f := codec.Frame{make([]byte, capSize+extra)}
+	for i := range f[0] {
+		f[0][i] = byte(i * 7)
+	}
+	f[0][0] = 0x86 // non-key frame header
+	e, err := Format.NewEncoder(max, 65000, 9, 96, 0)
+	if err != nil {
+		return
+	}
+	d, _ := Format.NewDecoder(0)
+	ps, err := e.Encode(f)
+	ctx.Eval()
+	if err != nil {
+		return
+	}
+	got := false
+	for _, p := range ps {
+		fr, res := d.Decode(p)
+		if res == codec.ResFrame {
+			n := 0
+			for _, u := range fr {
+				n += len(u)
+			}
+			if n > capSize {
+				ctx.Failf(-1, "frame-too-big", "cap-boundary", "%s: a frame of %d bytes was returned, documented maximum %d", Format.Name, n, capSize)
+			}
+			if len(fr) == 1 && string(fr[0]) == string(f[0]) {
+				got = true
+			}
+		}
+	}
+	if extra == 0 && !got {
+		ctx.Failf(-1, "cap-boundary-roundtrip", "cap-boundary", "%s: a frame of exactly the maximum size (%d bytes, %d packets) did not round-trip", Format.Name, capSize, len(ps))
+	}
+	ctx.Kind(Format.Name + " cap-boundary")
+}
+
 func main() {
 	ctx := hx.Start("vp9")
 	defer ctx.Finish()
@@ -270,6 +312,13 @@ func main() {
 	}
 	if ctx.Prop == "C06" || ctx.Prop == "C03" {
 		headerCases(ctx)
+	}
+	if ctx.Prop == "C03" {
+		capBoundary(ctx, 0)
+	}
+	if ctx.Prop == "C08" {
+		capBoundary(ctx, 0)
+		capBoundary(ctx, 1)
 	}
 	Format.Run(ctx)
 	if ctx.Prop == "C08" {
